@@ -50,11 +50,31 @@ def generate_a(rng):
     o["faults"] = rng.choice([0.0, 1.0, 2.0])
     o["natural_faults"] = rng.choice([0.0, 0.5, 1.0])
     nruns = rng.choice([1, 1, 2, 3])
+    dedicated = rng.random() < 0.12      # a run that ends in a script-level behaviour error, followed by a run that looks at what it left
+    if dedicated:
+        nruns = max(2, nruns)
     cases = []
     for i in range(nruns):
         oo = dict(o)
-        c = pc.build_case(rng, dict(oo, k0=0), PROP, co_runner_prob=0.4)
+        if dedicated and i == 0:
+            oo.update(faults=0.0, natural_faults=0.0, early=0.0, budget=12)
+            c = pc.build_case(rng, dict(oo, k0=0), PROP, scheduled_prob=0.0, co_runner_prob=0.0)
+        else:
+            c = pc.build_case(rng, dict(oo, k0=0), PROP, co_runner_prob=0.4)
         cases.append(c)
+    # an error raised by an exit behaviour at script level, as right-hand side of an assignment to a global: the run ends there; not
+    # even the instruction that would store the construct's value may still execute - the next run on this VM looks at the global
+    for i in range(nruns - 1):
+        a, b = cases[i], cases[i + 1]
+        if not a["scheduled"] and not any(f.startswith("fault") or f.startswith("natural") for f in a["features"]) and (rng.random() < 0.6 or (dedicated and i == 0)):
+            g = "gq%d" % rng.randint(10 ** 6, 10 ** 7)
+            op = rng.choice(["count", "findIf", "selectc"])
+            arr = ["arr", [["num", rng.randint(0, 9)]]]
+            body = [["e", ["num", rng.randint(0, 5)]]]
+            rhs = ["count", body, arr] if op == "count" else [op, arr, body]
+            a["progs"][0].append(["gset", g, rhs])
+            a["features"] = sorted(set(a["features"]) | {"natural_fault", "natural_fault_script_level"})
+            b["progs"][0].insert(0, ["t", 999999, ["isNils", g]])
     # distinct marker / global ranges per run are not needed: every run is judged against a fresh model, and
     # later programs never read globals of earlier ones (unique prefixes per run below)
     case = {"engine": "A", "runs": [{"progs": c["progs"], "scheduled": c["scheduled"], "features": c["features"]} for c in cases],
